@@ -198,7 +198,7 @@ class C01(Machine):
         if tier == "thorough":
             return {"wall": 840, "max_runs": 10 ** 9, "chunk": 10,
                     "task_cap": 400}
-        return {"wall": 50, "max_runs": 10 ** 9, "chunk": 10,
+        return {"wall": 70, "max_runs": 10 ** 9, "chunk": 10,
                 "task_cap": 200}
 
     # ------------------------------------------------------------ pair table
@@ -253,6 +253,13 @@ class C01(Machine):
                 for mu in muts:
                     for (qn, kw) in qs:
                         out.append((s.name, mu.name, qn, kw))
+            if tier != "thorough":
+                # whatever the budget reaches is a uniform sample of the
+                # table (the small-class chains stay in front)
+                n_front = sum(1 for x in out if len(x) == 5)
+                tail = out[n_front:]
+                rnd.shuffle(tail)
+                out = out[:n_front] + tail
             C01._pairs[key] = out
         return C01._pairs[key]
 
